@@ -84,6 +84,12 @@ ValuePoll function that tells the model when it raises) and sends 0 hops later
 forced early initialisation is not fatal) needs cause early_init_error: an external event to a
 not yet initialised block whose init_regular raises, then further sends
 [delivered-when-not-running/aborting:early_init_error].
+s10 (a failing get_state() escapes from the state saving done after the handler) needs
+persistent storage and a persistent Input without initdef that receives a rejected value while
+still uninitialised: send() must return False [unexpected-exception/first_step]; s11
+(run_forever registers its task before the eager-task test) needs the cause eager_start: the
+start is attempted under asyncio.eager_task_factory, fails with RuntimeError, every later
+send() must be refused [delivered-when-not-running/created ...].
 Not expressible: "ready as soon as the task object exists" (_simtask is assigned by the task).
 Side observation (not C14): Circuit.wait_init() after abort()-before-start raises
 AttributeError('_init_done') instead of EdzedInvalidState; counted as wait_init_attribute_error.
@@ -104,14 +110,16 @@ PROP = 'C14'
 LEVEL = 'exploration'
 RUNS = {'quick': 40000, 'thorough': 1000000}
 CHUNK = 500
-RULE = ("one run = one circuit (scripted recorder, validated Input, Counter, FSM, auto-named "
+RULE = ("one run = one circuit (scripted recorder, validated Input, optional persistent Input "
+        "without initdef on a dict storage, Counter, FSM, auto-named "
         "Input, auto-named instance of a generated user class, Not on a _not_ shortcut, "
         "optional auto-named TimeDate/_cron_local and implicit Repeat, _ctrl, async-init probe, "
         "clean-up probe) x entry point (run_forever task / edzed.run with a supporting "
         "coroutine) x termination cause (abort, abort before start, shutdown awaited / in a "
         "task, _ctrl shutdown/abort from a block, external event to _ctrl, failing handler, raw "
         "task cancel, failing CBlock, failed initialisation, init routine failing in a forced early "
-        "initialisation, failing block task (AddonMainTask / ValuePoll), SIGTERM, supporting coroutine "
+        "initialisation, failing block task (AddonMainTask / ValuePoll), start attempted under an "
+        "eager task factory, SIGTERM, supporting coroutine "
         "returns/raises) x termination phase (first step, async init, running) x 0-3 "
         "ExtEvent.send() calls in each of the phases no-task/created/first-step/async-init/"
         "running/aborting/clean-up (driver, stop(), stop_async())/finished with generated data "
@@ -127,7 +135,8 @@ REACH_EXPECTED = ['phase_no_task', 'phase_created', 'phase_first_step', 'phase_a
                   'phase_cleanup_driver', 'phase_cleanup_stop', 'phase_cleanup_async',
                   'phase_finished', 'phase_after_failure', 'self_stop', 'explicit_finalize',
                   'cancel_noticed_after_yield', 'cancel_noticed_after_sleep', 'early_init_error',
-                  'task_error_main', 'task_error_vpoll', 'lenient_window', 'falsy_value',
+                  'task_error_main', 'task_error_vpoll', 'eager_start',
+                  'rejected_value_uninitialised_persistent', 'lenient_window', 'falsy_value',
                   'source_given_prefixed', 'source_given_plain', 'source_odd', 'default_source',
                   'ctor_source', 'internal_user_named', 'internal_auto_named', 'internal_repeat',
                   'internal_timedate', 'internal_generated_class', 'handler_error',
@@ -156,7 +165,7 @@ RESERVED_TRIES = ['_ext_x', '_x', '_ext_', '__', '_ext', '_Input_0']
 
 CAUSES_RF = ['abort', 'shutdown_await', 'shutdown_task', 'ctrl_shutdown', 'ctrl_abort',
              'ext_ctrl_shutdown', 'handler_error', 'cancel_task', 'calc_error', 'init_failure',
-             'abort_before_start', 'task_error', 'early_init_error']
+             'abort_before_start', 'task_error', 'early_init_error', 'eager_start']
 CAUSES_RUN = ['sup_return', 'sup_raise', 'sigterm', 'shutdown_await', 'abort', 'ctrl_shutdown',
               'task_error']
 EARLY_OK = ('abort', 'shutdown_task', 'cancel_task', 'ctrl_shutdown', 'ctrl_abort',
@@ -298,7 +307,26 @@ def gen(rng, tier, index=0):
         # send() from callbacks queued at the very moment the simulation task fails
         for hops in rng.choice([[0], [0, 1], [0, 0, 2], [1, 0], [2, 1, 0]]):
             after_failure.append({'hops': hops, 'send': gen_send(rng, 'after_failure')})
+    # persistent storage and a persistent Input without initdef ('pinp'): a rejected value
+    # leaves it uninitialised, its state cannot be saved - send() must still return False
+    persist = rng.random() < 0.5
+    if entry == 'run' and not async_init:
+        # a supporting coroutine is started after the (purely synchronous) initialisation:
+        # nobody could give the persistent Input its first value in time
+        persist = False
+    if persist:
+        steps = [st for part in (pre, created, body, post) for st in part]
+        steps += [async_init['probe_send']] if async_init else []
+        steps += [cleanup['stop_send']] if cleanup['stop_send'] else []
+        steps += cleanup['async_sends'] + [item['send'] for item in after_failure]
+        for st in steps:
+            if st.get('do') == 'send' and st['dest'] in ('inp', 'auto') and rng.random() < 0.5:
+                st['dest'] = 'pinp'
+        bad = gen_send(rng, 'first_step')
+        bad.update({'dest': 'pinp', 'etype': 'put', 'value': {'v': 'bad'}, 'extra': {}})
+        body.insert(0, bad)
     return {'knobs': knobs, 'finalize': rng.random() < 0.3, 'after_failure': after_failure,
+            'persist': persist,
             'task_kind': rng.choice(['main', 'main', 'vpoll']),
             'failinit_sets_output': rng.random() < 0.4, 'entry': entry, 'cause': cause, 'tphase': tphase,
             'async_init': async_init, 'cleanup': cleanup, 'relay_cls': relay_cls,
@@ -548,7 +576,7 @@ class Ctx:
         kwargs = {k: v for k, v in spec.get('extra', {}).items()}
         has_value = spec.get('value') is not None
         value = spec['value']['v'] if has_value else None
-        if has_value and dest_name in ('inp', 'auto', 'relay') and value not in ('bad',):
+        if has_value and dest_name in ('inp', 'pinp', 'auto', 'relay') and value not in ('bad',):
             # make every accepted put an output change (-> internal events)
             if isinstance(value, str) and value and not spec.get('raw'):
                 self.uniq += 1
@@ -722,9 +750,12 @@ class Ctx:
         """Step the model of the destination; return the handler's result."""
         if dest_name == 'rec':
             return spec.get('ret')
-        if dest_name == 'inp':
+        if dest_name in ('inp', 'pinp'):
             if 'value' not in data:
                 return NotImplemented
+            if dest_name == 'pinp' and data['value'] == 'bad' \
+                    and not self.blocks['pinp'].is_initialized():
+                self.run.fired('reach:rejected_value_uninitialised_persistent')
             return data['value'] != 'bad'
         if dest_name == 'auto':
             return True if 'value' in data else NotImplemented
@@ -760,8 +791,12 @@ def build(ctx, plan):
     run = ctx.run
     blocks = ctx.blocks
     try:
+        if plan.get('persist'):
+            ctx.circuit.set_persistent_data({})
         rec = Rec('rec', x_ctx=ctx)
         blocks['rec'] = rec
+        if plan.get('persist'):
+            blocks['pinp'] = edzed.Input('pinp', persistent=True, check=lambda v: v != 'bad')
         inp_events = [edzed.Event(rec, 'from_inp')]
         if plan.get('with_repeat'):
             inp_events.append(edzed.Event('rec', 'rep', repeat=0.5, count=1))
@@ -816,7 +851,7 @@ def build(ctx, plan):
         else:
             run.violate('C14/reserved-name-accepted',
                         f"a user block could be created with the reserved name {name!r}")
-    for name in ('rec', 'inp', 'cnt', 'fsm', 'auto', 'relay', 'failinit'):
+    for name in ('rec', 'inp', 'pinp', 'cnt', 'fsm', 'auto', 'relay', 'failinit'):
         if name in blocks:
             fsmlib.hook_events(blocks[name], ctx.hook)
     # ExtEvent objects created before the start
@@ -936,6 +971,8 @@ def execute(plan, trace=False):
                     ctx.lenient = False
                     ctx.stopped = True
                 run.loop.call_soon(noticed)
+            elif cause == 'eager_start':
+                pass        # the start itself failed (see main)
             elif cause == 'shutdown_await':
                 pass        # handled by the interpreter (needs await)
             elif cause in ('sup_return', 'sup_raise'):
@@ -948,9 +985,20 @@ def execute(plan, trace=False):
         class Leave(Exception):
             pass
 
+        def ensure_pinp():
+            # before the driver lets the simulation task run: the persistent Input without
+            # initdef needs a valid value, otherwise the initialisation fails by itself
+            blk = blocks.get('pinp')
+            if blk is not None and ctx.started and not ctx.stopped and not ctx.lenient \
+                    and not blk.is_initialized():
+                ctx.ext_send({'do': 'send', 'phase': 'first_step', 'dest': 'pinp', 'etype': 'put',
+                              'value': {'v': 'p'}, 'extra': {}, 'source': None, 'dsrc': None})
+
         async def interpret(steps, in_sup=False):
             for step in steps:
                 do = step.get('do')
+                if do != 'send':
+                    ensure_pinp()
                 if do == 'send':
                     ctx.ext_send(step)
                 elif do == 'yield':
@@ -1005,7 +1053,22 @@ def execute(plan, trace=False):
         async def main():
             await interpret(plan.get('pre', []))
             if entry == 'rf':
-                simtask = asyncio.ensure_future(circuit.run_forever())
+                if plan['cause'] == 'eager_start':
+                    # the application's loop uses eager tasks: the start is refused with a
+                    # RuntimeError (which the application catches); the circuit never started
+                    run.fired('reach:eager_start')
+                    run.loop.set_task_factory(asyncio.eager_task_factory)
+                    try:
+                        simtask = run.loop.create_task(circuit.run_forever())
+                    finally:
+                        run.loop.set_task_factory(None)
+                    ctx.stopped = True
+                    if not simtask.done() or simtask.cancelled() \
+                            or not isinstance(simtask.exception(), RuntimeError):
+                        run.log('eager-start', 'not refused')
+                        run.fired('eager_start_not_refused')
+                else:
+                    simtask = asyncio.ensure_future(circuit.run_forever())
                 state['simtask'] = simtask
                 await interpret(plan.get('created', []))
                 await asyncio.sleep(0)
